@@ -70,6 +70,11 @@ func (w *webhookExecutorEtag) adjustResponse(
 		if !cacheEntryExists {
 			return nil, fmt.Errorf("cannot find cached response for cache key: %s", cacheKey)
 		}
+		if cacheEntry.Etag != request.Header.Get(headerIfNoneMatch) {
+			// A concurrent call replaced the entry after this request was sent:
+			// the cached body no longer belongs to the ETag the server confirmed.
+			return nil, fmt.Errorf("cached response for cache key %s does not match the ETag sent", cacheKey)
+		}
 		return cacheEntry.Response, nil
 	}
 	eTag := response.Header.Get(headerETag)
